@@ -36,7 +36,7 @@ REQUIRED_PROBES = ["madgwick.Madgwick.updateIMU", "madgwick.Madgwick.updateMARG"
                    "angular.AngularRate.update", "oleq.OLEQ.estimate", "flae.FLAE.estimate"]
 RULE = ("bs cases: one random sensor history (5..60 samples, acc/mag >= 5 deg from parallel, gyro 1e-3..3 rad/s) per filter configuration with "
         "default or explicit parameters (gains, frequency, noises, dip): constructor run vs update() stream from Q[0], both repeated; "
-        "interleave cases: 2..4 instances (same and different classes) with their own histories and a random schedule of update calls; "
+        "explicit array-valued parameters (q0, b0, P, weights) are created once per case and the same objects are passed to every run and instance; interleave cases: 2..4 instances (same and different classes) with their own histories and a random schedule of update calls; "
         "process cases: one batch run repeated in a fresh interpreter; the shared-state monitor wraps every case; non-trivial = all")
 ASSUMPTIONS = ["batch and stream run the same update code: equality to 1e-13 (AngularRate batch re-normalises once more), repeats and sub-histories bit-identical",
                "the only permitted shared-state write is consumption of the global NumPy RNG by OLEQ.estimate (and by ROLEQ's OLEQ start)",
@@ -60,23 +60,25 @@ def params_for(rng, name, explicit):
     if not explicit:
         return {}
     fr = gens.logu(rng, 10.0, 500.0)
+    if name == "Madgwick/IMU":
+        return {"frequency": fr, "gain": gens.logu(rng, 1e-2, 1.0), "q0": gens.unit(rng)}
     if name.startswith("Madgwick"):
         return {"frequency": fr, "gain": gens.logu(rng, 1e-2, 1.0)}
-    if name.startswith("Mahony"):
-        return {"frequency": fr, "k_P": gens.logu(rng, 0.1, 10), "k_I": gens.logu(rng, 0.01, 2)}
+    if name.startswith("Mahony"):      # b0 / q0 arrays: the SAME ndarray objects are handed to every run of the case
+        return {"frequency": fr, "k_P": gens.logu(rng, 0.1, 10), "k_I": gens.logu(rng, 0.01, 2), "b0": rng.standard_normal(3) * 1e-2, "q0": gens.unit(rng)}
     if name.startswith("EKF"):
-        kw = {"frequency": fr, "noises": [gens.logu(rng, 1e-3, 1), gens.logu(rng, 1e-3, 1), gens.logu(rng, 1e-3, 1)]}
+        kw = {"frequency": fr, "noises": [gens.logu(rng, 1e-3, 1), gens.logu(rng, 1e-3, 1), gens.logu(rng, 1e-3, 1)], "P": np.eye(4) * gens.logu(rng, 0.1, 2.0), "q0": gens.unit(rng)}
         if "MARG" in name:
             kw["magnetic_ref"] = float(rng.uniform(-70, 70))
         return kw
     if name.startswith("AQUA"):
-        return {"frequency": fr, "alpha": gens.logu(rng, 1e-3, 0.5), "beta": gens.logu(rng, 1e-3, 0.5), "threshold": float(rng.uniform(0.6, 0.99))}
+        return {"frequency": fr, "alpha": gens.logu(rng, 1e-3, 0.5), "beta": gens.logu(rng, 1e-3, 0.5), "threshold": float(rng.uniform(0.6, 0.99)), "q0": gens.unit(rng)}
     if name == "Fourati":
         return {"frequency": fr, "gain": gens.logu(rng, 1e-2, 1.0), "magnetic_dip": float(rng.uniform(-70, 70))}
     if name.startswith("ROLEQ"):
-        return {"frequency": fr, "magnetic_ref": float(rng.uniform(-70, 70))}
+        return {"frequency": fr, "magnetic_ref": float(rng.uniform(-70, 70)), "weights": rng.uniform(0.5, 2.0, 2), "q0": gens.unit(rng)}
     if name == "UKF":
-        return {"frequency": fr}
+        return {"frequency": fr, "P": np.eye(4) * 0.01}
     return {}
 
 
